@@ -1,4 +1,5 @@
 """property id -> harness modules (each exposes obligations(tier) -> [Ob])."""
 REGISTRY = {
     "C13": ["vf.harness.c13"],
+    "C14": ["vf.harness.c14"],
 }
